@@ -408,7 +408,25 @@ pub fn canon(raw: &Raw) -> Canon {
 }
 
 pub async fn dump_canon(p: &FPeer) -> Result<Canon, String> {
-    Ok(canon(&dump_raw(p).await?))
+    let mut c = canon(&dump_raw(p).await?);
+    // what the RUNNING instance believes, beyond what is stored: the rooms the second identity belongs to according
+    // to the in-memory definitions (a room mutation that is reported failed must not be honoured there either)
+    let mut rx = p.db.get_rooms_for_peer(crate::light::verifying_key_for(2)).await;
+    let mut live = vec![];
+    while let Some(r) = rx.recv().await {
+        if let Ok(ids) = r {
+            for id in ids {
+                let rows = p.sql(&format!("SELECT cdate FROM _node WHERE id = x'{}'", hex::encode_upper(id))).await?;
+                live.push(match rows.first().and_then(|r| r[0].int()) {
+                    Some(d) => format!("room created at {}", d),
+                    None => "room that is not stored".to_string(),
+                });
+            }
+        }
+    }
+    live.sort();
+    c.data.insert("live:rooms_of_second_identity".into(), live);
+    Ok(c)
 }
 
 pub fn data_hash(c: &Canon) -> String {
@@ -1672,7 +1690,7 @@ async fn verify_async(dir: &Path) -> Result<Value, String> {
     };
     // start_in ends with the barrier: the start-up recompute pass has run
     let raw = dump_raw(&p).await?;
-    let c = canon(&raw);
+    let c = dump_canon(&p).await?;
     // from-scratch recomputation by the real pass: every log row marked, hashes wiped
     p.raw_write(vec![
         "UPDATE _daily_log SET need_recompute = 1, daily_hash = NULL, history_hash = NULL, entry_number = 0".to_string(),
